@@ -152,10 +152,17 @@ pub fn cases_of_uni(u: i32, tier: &str, seed: u64, emit: &mut dyn FnMut(String, 
     let s = (u as u64).wrapping_add(seed);
     let combos: Vec<(Kind, RotationMagneticMomentAction)> = if thorough { COMBOS.to_vec() } else { vec![COMBOS[(s % 4) as usize]] };
     let nops = mag_conv_ops(u).len();
+    // quick tier: sub-selections use s/3 (the UNI numbers themselves are selected by s % 3), and the largest groups
+    // (>= 192 conventional operations: the oracles are quadratic) get a single re-described case for one number in four
+    let s3 = s / 3;
+    let huge = nops >= 192;
+    if !thorough && huge && s3 % 4 != 0 {
+        return;
+    }
     for (kind, action) in combos {
         let ct = combo_tag(kind, action);
         // large groups: magnetic species only (the brute-force premise check and the oracles are quadratic in the atoms)
-        let nonmag = if nops > 96 { 0 } else { 1 };
+        let nonmag = if nops > (if thorough { 96 } else { 48 }) { 0 } else { 1 };
         let base = match mag_crystal(u, kind, action, &mut rng, nonmag, 12) {
             Some(b) => b,
             None => {
@@ -165,7 +172,7 @@ pub fn cases_of_uni(u: i32, tier: &str, seed: u64, emit: &mut dyn FnMut(String, 
         };
         let symprec = 1e-4;
         let msp = |rng: &mut Rng| -> Option<f64> { *rng.pick(&[None, Some(1e-4), Some(3e-4), Some(1e-3)]) };
-        if thorough || s % 3 == 0 {
+        if thorough || (s3 % 3 == 0 && !huge) {
             let m = msp(&mut rng);
             emit(format!("u{}-{}-own", u, ct), &base, symprec, m);
         }
@@ -175,18 +182,18 @@ pub fn cases_of_uni(u: i32, tier: &str, seed: u64, emit: &mut dyn FnMut(String, 
             let m = msp(&mut rng);
             emit(format!("u{}-{}-re{}", u, ct, k), &c, symprec, m);
         }
-        if thorough || s % 4 == 1 {
+        if thorough || (s3 % 4 == 1 && !huge) {
             let c = redescribe(&base, &mut rng, 2, None).reverse_moments();
             let m = msp(&mut rng);
             emit(format!("u{}-{}-rev", u, ct), &c, symprec, m);
         }
-        if thorough || s % 5 == 2 {
+        if thorough || (s3 % 5 == 2 && !huge) {
             let lvl = 1 + rng.range(0, 1) as u32;
             let c = redescribe(&base, &mut rng, lvl, None).zero_moments();
             let m = msp(&mut rng);
             emit(format!("u{}-{}-zero", u, ct), &c, symprec, m);
         }
-        if (thorough || s % 6 == 3) && base.cell().num_atoms() <= 200 {
+        if (thorough || s3 % 6 == 3) && base.cell().num_atoms() <= (if thorough { 200 } else { 100 }) {
             let idx = rng.range(2, if thorough { 4 } else { 3 }) as i32;
             let all = hnfs_of_index(idx);
             let hm = *rng.pick(&all);
